@@ -776,6 +776,7 @@ package biscuit
 //@ loop 13 invariant len(errMsg) == len(errs) && fresh(arr(errMsg)) && (forall k int :: { errs[k] } 0 <= k && k < len(errs) ==> errs[k] != nil)
 //@ ensures allow_needed[C04]: err == nil ==> (exists p int :: { v.policies[p] } 0 <= p && p < len(v.policies) && v.policies[p].Kind == PolicyKindAllow)
 //@ ensures within_limits[C11]: err == nil ==> len(*v.world.facts) < v.world.runLimits.maxFacts
+//@ ensures rules_reset[C03 C04 C12]: err == nil ==> len(v.world.rules) == 0
 //@ ensures keeps_wf: err != datalog.ErrWorldRunLimitTimeout ==> authWF(v)
 //@ ensures keeps_content: contentWF(v.biscuit)
 //@ ensures keeps_apart: err != datalog.ErrWorldRunLimitTimeout ==> factsApart(v) && rulesApart(v)
